@@ -147,12 +147,29 @@ def _is_one_test(par, n):
 # Structural keys: neither the name of the enclosing function nor of a variable takes part, so extracting the loop into
 # a helper or renaming keeps the entry, and a different size-bounded loop in the same module does not match it.
 RANGE_TABLE = {
-    ("decomposednamedtensor_from_classical", "((tuple((<v>.value for <v> in <loop element>)))[(_expr_to_axis(<loop element>))[0]])", None): "length of the bracketed coordinate axis = number of bracketed target axes (fixed by the description through the stage-3 equation), not a data length",
     ("elementary_from_classical", "<loop element>.shape[0]", "<loop element>.ndim == 1"): "number of components of a 1-D coordinate vector = number of bracketed target axes (fixed by the description through the stage-3 equation), not a data length",
 }
+# a bound that is the length of a *bracketed* axis of a coordinate expression (selected through a function that tests
+# for brackets, `_expr_to_axis`): the number of bracketed target axes, fixed by the description
+BRACKETED_AXIS_LENGTH = ("decomposednamedtensor_from_classical", "length of the bracketed coordinate axis = number of bracketed target axes (fixed by the description through the stage-3 equation), not a data length")
 
 
-def _range_exempt(f, call, a):
+def _selects_bracketed_axis(p, f, a):
+    from . import ir
+
+    names, _ = ir.derive(f.node, a)
+    for nm in names:
+        r = p.resolve_chain(f.module, [nm])
+        if r and r[0] == "func":
+            body = " ".join(norm(st) for st in r[1].node.body)
+            if "is_in_brackets" in body or "Brackets" in body:
+                return True
+    return False
+
+
+def _range_exempt(f, call, a, p=None):
+    if p is not None and f.module.name.endswith(BRACKETED_AXIS_LENGTH[0]) and _selects_bracketed_axis(p, f, a):
+        return BRACKETED_AXIS_LENGTH[1]
     key = _anon(f, a)
     for (mod, ex, guard), reason in RANGE_TABLE.items():
         if f.module.name.endswith(mod) and key == ex:
@@ -247,14 +264,14 @@ def r2(p, rep):
                     s = _size_expr(a, _tainted_names(p, f))
                     key = f"{f.qualname}:range({norm(a)[:40]})"
                     if s is not None:
-                        tab = _range_exempt(f, n, a)
+                        tab = _range_exempt(f, n, a, p)
                         if tab:
                             rep.exempt("C17.R2", key, site, tab)
                         else:
                             rep.violation("C17.R2", key, site, f"`range({norm(a)})` iterates over an axis length while tracing: the number of emitted backend calls grows with the tensor size")
                         continue
                     rl = _rank_like(p, f, a)
-                    tab = _range_exempt(f, n, a)
+                    tab = _range_exempt(f, n, a, p)
                     if rl is False and tab:
                         rep.exempt("C17.R2", key, site, tab)
                     elif rl is False:
